@@ -63,6 +63,8 @@ type InstCfg struct {
 	// GateTransTo: the metrics callback counting the state transition to this state (it runs inside the critical section
 	// that publishes the transition) blocks until a release_gate step (the first such transition only).
 	GateTransTo string `json:"gate_trans_to"`
+	// GateTransNth: which transition to that state is gated (default: the first).
+	GateTransNth int `json:"gate_trans_nth"`
 	// PromotePanic: the OnPromote callback panics (after it was recorded). DemoteCallsStop: the OnDemote callback calls Stop().
 	PromotePanic    bool `json:"promote_panic"`
 	DemoteCallsStop bool `json:"demote_calls_stop"`
